@@ -1,0 +1,16 @@
+//go:build verif
+
+package suggestion
+
+import (
+	"k8s.io/apimachinery/pkg/runtime"
+	"k8s.io/client-go/tools/record"
+	"sigs.k8s.io/controller-runtime/pkg/client"
+
+	"github.com/kubeflow/katib/pkg/controller.v1beta1/suggestion/composer"
+	"github.com/kubeflow/katib/pkg/controller.v1beta1/suggestion/suggestionclient"
+)
+
+func NewVerifReconciler(c client.Client, scheme *runtime.Scheme, rec record.EventRecorder, sc suggestionclient.SuggestionClient, comp composer.Composer) *ReconcileSuggestion {
+	return &ReconcileSuggestion{Client: c, scheme: scheme, recorder: rec, SuggestionClient: sc, Composer: comp}
+}
